@@ -171,6 +171,8 @@ func fErr(v interface{}) (interface{}, error) { return nil, errBoom }
 func gList(vs []interface{}) (interface{}, error) {
 	return append([]interface{}{}, vs...), nil
 }
+// gAll returns the list it was given, as it is (a "collect" aggregate).
+func gAll(vs []interface{}) (interface{}, error) { return vs, nil }
 func gCnt(vs []interface{}) (interface{}, error) { return float64(len(vs)), nil }
 func gErr(vs []interface{}) (interface{}, error) { return nil, errBoom }
 func gFirst(vs []interface{}) (interface{}, error) {
@@ -196,7 +198,7 @@ func fReenter(v interface{}) (interface{}, error) {
 // FilterFuncs and AggregateFuncs: base behaviours; names with a digit suffix are aliases
 // (f, f1, f2, f3 ...) so that every occurrence in a path can be told apart in call logs.
 var baseFilter = map[string]func(interface{}) (interface{}, error){"f": fDouble, "id": fID, "e": fErr, "fre": fReenter}
-var baseAggregate = map[string]func([]interface{}) (interface{}, error){"g": gList, "cnt": gCnt, "eg": gErr, "first": gFirst, "gre": gReenter}
+var baseAggregate = map[string]func([]interface{}) (interface{}, error){"g": gList, "cnt": gCnt, "eg": gErr, "first": gFirst, "gre": gReenter, "all": gAll}
 
 // Env is a matched pair: a model function table and a library Config, both recording.
 type Env struct {
@@ -215,6 +217,9 @@ type Env struct {
 // NewEnv builds the standard environment.
 func NewEnv() *Env {
 	e := &Env{}
+	// accessor mode is switched on BEFORE the functions are registered: the repository's own tests
+	// and examples always use the other order (which C19's config kind 5 keeps)
+	e.CfgAcc.SetAccessorMode()
 	e.Model = &spec.Funcs{
 		Filter:    map[string]func(interface{}) (interface{}, error){},
 		Aggregate: map[string]func([]interface{}) (interface{}, error){},
@@ -258,7 +263,6 @@ func NewEnv() *Env {
 			e.CfgAcc.SetAggregateFunction(name, rec)
 		}
 	}
-	e.CfgAcc.SetAccessorMode()
 	return e
 }
 
@@ -308,6 +312,7 @@ func Unwrap(vs []interface{}) (out []interface{}, ok bool) {
 // PureConfigs returns configs with the standard functions but without recording (safe to
 // share between goroutines).
 func PureConfigs() (plain, acc jsonpath.Config) {
+	acc.SetAccessorMode()
 	for base, fn := range baseFilter {
 		for _, suf := range []string{"", "1", "2", "3"} {
 			plain.SetFilterFunction(base+suf, fn)
@@ -320,6 +325,5 @@ func PureConfigs() (plain, acc jsonpath.Config) {
 			acc.SetAggregateFunction(base+suf, fn)
 		}
 	}
-	acc.SetAccessorMode()
 	return
 }
